@@ -112,6 +112,10 @@ def dec_str(w):
     return ''.join(chr(int(x, 16)) for x in w.split('.'))
 
 
+class StopExploring(BaseException):
+    """raised by Check.case() to cut a run short (BaseException: the `except Exception` blocks of the harnesses let it through)"""
+
+
 class Check(object):
     def __init__(self, prop, tier='quick', seed=None):
         self.prop = prop
@@ -138,6 +142,24 @@ class Check(object):
         self.drivers = {}
         self.extra_cov = {}
         self.known = load_known(prop)
+        # time guards.  A change to the library can make every explored case slow (seeded change C03-r6m1: a list that grows with
+        # every save of the process made one quick run take more than half an hour).  (1) once a failing input is on record the
+        # exploration goes on for a grace period only; (2) a run that exceeds its budget - an order of magnitude above what the
+        # unchanged tree needs - stops and reports that it did not finish (a broken obligation, never a silent pass).
+        self.first_fail_t = None
+        self.grace_s = float(os.environ.get('VERIF_GRACE_S', '45' if tier == 'quick' else '180'))
+        self.budget_s = float(os.environ.get('VERIF_BUDGET_S', '900' if tier == 'quick' else '5400'))
+        self.stopped = None
+
+    def time_guard(self):
+        now = time.time()
+        if self.failures and self.first_fail_t is not None and now - self.first_fail_t > self.grace_s:
+            self.stopped = 'failing inputs on record; exploration cut short %.0f s after the first one' % (now - self.first_fail_t)
+            raise StopExploring(self.stopped)
+        if now - self.t0 > self.budget_s:
+            self.stopped = 'time budget of %.0f s exceeded after %d cases' % (self.budget_s, self.evaluations)
+            self.broken.append({'what': 'time-budget', 'detail': self.stopped + ' - the exploration did not finish (the unchanged tree needs a fraction of this)'})
+            raise StopExploring(self.stopped)
 
     # ---------------------------------------------------------------- bookkeeping
     def count(self, key, n=1):
@@ -146,6 +168,8 @@ class Check(object):
     def case(self, key, nontrivial=True, sample=None):
         """register one explored case; `key` identifies it for distinctness"""
         self.evaluations += 1
+        if self.stopped is None and (self.evaluations & 15) == 0:
+            self.time_guard()
         if nontrivial:
             if len(self.nontrivial) < 2000000:
                 self.nontrivial.add(key if isinstance(key, (str, int, tuple)) else repr(key))
@@ -332,6 +356,8 @@ class Check(object):
                 return 'known'
         if len(self.failures) < 50:
             self.failures.append({'sig': sig, 'case': case, 'detail': detail, 'replay': replay or case})
+        if self.first_fail_t is None:
+            self.first_fail_t = time.time()
         return 'violation'
 
     def write_replay(self, obj):
@@ -347,7 +373,7 @@ class Check(object):
     def finish(self):
         for d in self.drivers.values():
             d.close()
-        if (self.broken or self.corr_diffs) and not self.failures and self.deep_search:
+        if (self.broken or self.corr_diffs) and not self.failures and self.deep_search and self.stopped is None:
             try:
                 self.deep_search()
             except InfraError:
@@ -468,6 +494,13 @@ def main_wrapper(run, prop):
     except InfraError as e:
         print('INFRA-ERROR %s: %s' % (prop, e))
         sys.exit(2)
+    except StopExploring as e:
+        chk.notes.append('exploration stopped early: %s' % (e,))
+        try:
+            sys.exit(chk.finish())
+        except InfraError as e2:
+            print('INFRA-ERROR %s: %s' % (prop, e2))
+            sys.exit(2)
     except (KeyboardInterrupt, SystemExit):
         raise
     except Exception as e:
